@@ -774,6 +774,10 @@ def stream_filepath(ctx, r):
             "file://h/C:/x", "file:///C:/..", "file://1.2.3.4/s/x", "file://[::1]/s/x", "non-spec:/x", "file:///%3F%23", "file://h/s/a%2Fb%2F..%2Fc"]
     for u in urls:
         lines.append("parse 0 %s -" % tok(u)); lines.append("tofile 0 posix"); lines.append("tofile 0 windows")
+    # objects that are not file URLs at all: never parsed, cleared, or left invalid by a failed parse of a file: URL
+    lines.append("clear 0"); lines.append("tofile 0 posix"); lines.append("tofile 0 windows")
+    for u in ["file://a b/x", "file://h:80/x", "file://[/x", "file://%/x", "file://u@h/x", "file://a<b/C:/x", "file://h:x", "file:///x\x00", "file://xn--/x"]:
+        lines.append("parse 0 %s -" % tok(u)); lines.append("tofile 0 posix"); lines.append("tofile 0 windows")
     for rep in range(scale(ctx, 500, 10000)):
         u = "file://" + r.choice(["", "", "host", ".", "h.", "%2e", "1.1", "[::1]"]) + "/" + "/".join("".join(r.choice(["a", ".", "%2e", "%2F", "%5C", "%00", "C:", "C|", "%43%3A", "", "%FF", "%C3%BC", " ", "|"]) for _ in range(r.randint(0, 3))) for _ in range(r.randint(0, 4)))
         lines.append("parse 0 %s -" % tok(u)); lines.append("tofile 0 %s" % r.choice(["posix", "windows"]))
